@@ -483,3 +483,114 @@ Definition count_held (cfg : config) (s : sys) : nat :=
   fold_right (fun t a => length (held (thr s t)) + a) 0 (seq 0 (nthr cfg)).
 Definition inflight (cfg : config) (s : sys) : nat :=
   length (filter (fun t => match tpc (thr s t) with Idle => false | _ => true end) (seq 0 (nthr cfg))).
+
+(* ---------------------------------------------------------------------------------------- *)
+(* The QUIESCENT pool operations of ThreadSafeVector: clear(), clear_after(offset),
+   get_free_elements(size).  "This method is not meant to be thread safe": they are plain loops
+   over the slot flags followed by plain stores to the counters, and are called by the master
+   thread OUTSIDE every parallel region
+     TaskBasedIonizationSimulation.cpp            _tasks->clear()  at the end of an iteration
+     TaskBasedRadiationHydrodynamicsSimulation.cpp tasks->clear_after(radiation_task_offset)
+                                                  after every radiation step ("remove radiation tasks")
+     (get_free_elements has no caller in the tree; it is modelled for completeness)
+   so one call = ONE model step, enabled only while no thread has a pool operation in flight
+   ([pool_quiet]; in particular in every [quiescent] state = after the barrier that ends a parallel
+   region).  Contract of the callers (the precondition the code relies on, [qpre]):
+     clear_after(offset): "We assume all values before the given offset are in use" - the slots
+       [0, offset) are exactly the permanently held ones (the hydro tasks, created first from the
+       empty pool and never freed): every flag below offset is set, offset <= _size; that is what
+       _number_taken.set(offset) assumes.  Every handle >= offset is dropped by its holder
+       (the radiation tasks are forgotten), which the model expresses by removing these slots from
+       the client views [held].
+     clear(): every handle is dropped.
+     get_free_elements(size): the pool is empty and size <= _size; the caller (thread t) becomes
+       the holder of slots 0 .. size-1.
+   [qexec] itself is total: it performs the assignments of the code whatever the state, so the
+   correspondence also runs it outside the contract. *)
+Definition wofnat (n : nat) : N := (N.of_nat n mod WORD)%N.       (* a size_t argument *)
+
+Inductive qop :=
+| QClear                           (* ThreadSafeVector::clear() *)
+| QClearAfter (off : nat)          (* ThreadSafeVector::clear_after(offset) *)
+| QGetN (t n : nat).               (* ThreadSafeVector::get_free_elements(size), called by thread t *)
+
+(*  for (i = offset; i < _size; ++i) _locks[i].unlock();
+    _number_taken.set(offset); _current_index.set(offset);
+    _max_number_taken.set(offset); _total_number_taken.set(offset);
+    clear() is the same sequence with offset = 0 (and a fresh element array) *)
+Definition pool_reset (cfg : config) (s : sys) (off : nat) : sys :=
+  mkSys (fun i => if (off <=? i) && (i <? psize cfg) then None else flags s i)
+        (wofnat off) (wofnat off) (wofnat off) (wofnat off)
+        (locks s) (ctr s) (lfc s) (mxv s) (queues s)
+        (fun t => let ts := thr s t in
+                  mkT (tpc ts) (top ts) (filter (fun i => i <? off) (held ts)) (hlocks ts) (htasks ts))
+        (hist s).
+
+(*  for (i = 0; i < size; ++i) _locks[i].lock();          (the result of the CAS is ignored)
+    _current_index.set(size); _number_taken.set(size);
+    _max_number_taken.max(_number_taken.value()); _total_number_taken.pre_add(size); *)
+Definition pool_take_block (cfg : config) (s : sys) (t n : nat) : sys :=
+  mkSys (fun i => if i <? n then match flags s i with None => Some t | Some x => Some x end else flags s i)
+        (wofnat n) (wofnat n) (N.max (wofnat n) (maxtaken s)) (wadd (total s) (wofnat n))
+        (locks s) (ctr s) (lfc s) (mxv s) (queues s)
+        (fun t' => let ts := thr s t' in
+                   if Nat.eqb t' t then mkT (tpc ts) (top ts) (rev (seq 0 n) ++ held ts) (hlocks ts) (htasks ts) else ts)
+        (hist s).
+
+Definition qexec (cfg : config) (s : sys) (q : qop) : sys :=
+  match q with
+  | QClear => pool_reset cfg s 0
+  | QClearAfter off => pool_reset cfg s off
+  | QGetN t n => pool_take_block cfg s t n
+  end.
+
+(* no pool operation in flight *)
+Definition pool_pc (p : pc) : bool :=
+  match p with
+  | G_readTaken | G_fetchCur | G_cas _ | G_incTaken _ | G_maxLoad _ _ | G_maxCas _ _ _ _ | G_totInc _
+  | F_cas _ | F_dec _ => true
+  | _ => false
+  end.
+Definition pool_quiet (cfg : config) (s : sys) : Prop :=
+  forall t, t < nthr cfg -> pool_pc (tpc (thr s t)) = false.
+
+(* the contract of the callers *)
+Definition qpre (cfg : config) (s : sys) (q : qop) : Prop :=
+  pool_quiet cfg s /\
+  match q with
+  | QClear => True
+  | QClearAfter off => off <= psize cfg /\ forall i, i < off -> flags s i <> None
+  | QGetN t n => t < nthr cfg /\ n <= psize cfg /\ forall i, i < psize cfg -> flags s i = None
+  end.
+
+(* the same, decided (used by the drivers of the correspondence to place the calls) *)
+Definition qpre_b (cfg : config) (s : sys) (q : qop) : bool :=
+  forallb (fun t => negb (pool_pc (tpc (thr s t)))) (seq 0 (nthr cfg)) &&
+  match q with
+  | QClear => true
+  | QClearAfter off => (off <=? psize cfg) && forallb (fun i => is_some (flags s i)) (seq 0 off)
+  | QGetN t n => (t <? nthr cfg) && (n <=? psize cfg) && forallb (fun i => negb (is_some (flags s i))) (seq 0 (psize cfg))
+  end.
+
+(* reachability with the quiescent operations: any interleaving of atomic steps of the threads, and,
+   at any moment at which no pool operation is in flight, a call of clear / clear_after /
+   get_free_elements that respects the contract *)
+Inductive reachq (cfg : config) : sys -> Prop :=
+| rq_init : reachq cfg (init cfg)
+| rq_step : forall s t c, reachq cfg s -> wf_choice s t c = true -> reachq cfg (fst (step cfg s t c))
+| rq_quiet : forall s q, reachq cfg s -> qpre cfg s q -> reachq cfg (qexec cfg s q).
+
+(* ... as schedules: lists of thread steps and quiescent calls *)
+Inductive act := AStep (t : nat) (c : op) | AQuiet (q : qop).
+Definition qstep (cfg : config) (s : sys) (a : act) : sys :=
+  match a with AStep t c => fst (step cfg s t c) | AQuiet q => qexec cfg s q end.
+Definition act_ok (cfg : config) (s : sys) (a : act) : bool :=
+  match a with AStep t c => wf_choice s t c | AQuiet q => qpre_b cfg s q end.
+Fixpoint wf_acts (cfg : config) (l : list act) (s : sys) : bool :=
+  match l with
+  | [] => true
+  | a :: r => act_ok cfg s a && wf_acts cfg r (qstep cfg s a)
+  end.
+Definition runq (cfg : config) (l : list act) (s : sys) : sys := fold_left (qstep cfg) l s.
+Definition reachable_q (cfg : config) (s : sys) : Prop :=
+  exists l, wf_acts cfg l (init cfg) = true /\ s = runq cfg l (init cfg).
